@@ -1,0 +1,16 @@
+//go:build verif
+
+// Contracts for package oneonone, read by /verif/govc. Comments only.
+package oneonone
+
+//@ ghost field emitCount(Iface) Int
+//@ ghost field lastEmit(Iface) Int
+
+// monitorTopic: messages published by the local peer on the pairwise topic are dropped; every other payload
+// is emitted once, byte for byte, attributed to the peer the channel was opened for.
+//@ func (*channels).monitorTopic
+//@   props C20
+//@   flag nilcalls
+//@   requires c.emitter != nil && c.logger != nil && sub != nil
+//@   assert @ before call pubsub.NewEventPayload#1: msgFrom(msg) != c.selfID
+//@   assert @ after call c.emitter.Emit#1: ptr(lastEmit(c.emitter), "berty.tech/go-orbit-db/iface.EventPubSubPayload").Payload == msgData(msg) && ptr(lastEmit(c.emitter), "berty.tech/go-orbit-db/iface.EventPubSubPayload").Peer == p
